@@ -325,6 +325,13 @@ def collect(repo):
             KINDS4.update({"owner": ("itunes_owner", "itunes_owner", ())})
         KINDS4.update({"author": ("author", "author", ()), "contributor": ("contributor", "contributor", ()), "name": ("name", "name", ()),
                        "email": ("email", "email", ()), "url": ("url", "url", ())})
+    # cloud (no end handler) and generator
+    if hasattr(M, "_start_cloud") and body_of(M._start_cloud) == "self._get_context()['cloud'] = FeedParserDict(attrs_d)":
+        KINDS4.update({"cloud": ("cloud", None, ())})
+    if hasattr(M, "_start_generator") and hasattr(M, "_end_generator") and fp4_ok("_enforce_href", "resolve_uri") and \
+            body_of(M._start_generator) == "if attrs_d:\n    attrs_d = self._enforce_href(attrs_d)\n    if 'href' in attrs_d:\n        attrs_d['href'] = self.resolve_uri(attrs_d['href'])\nself._get_context()['generator_detail'] = FeedParserDict(attrs_d)\nself.push('generator', 1)" and \
+            body_of(M._end_generator) == "value = self.pop('generator')\ncontext = self._get_context()\nif isinstance(context.get('generator_detail'), dict):\n    context['generator_detail']['name'] = value":
+        KINDS4.update({"generator": ("generator", "generator", ())})
     stage4 = []
     for n in handlers(strict, "_start_"):
         for kind, (st, en, need) in KINDS4.items():
